@@ -1105,5 +1105,10 @@ class Engine:
 
     # ------------------------------------------------------------------ entry point
     def run(self, fn, store=None):
+        if getattr(self.hooks, 'entry_unit', None) is None or True:
+            try:
+                self.hooks.entry_unit = fn.unit
+            except AttributeError:
+                pass
         res = self.run_function(fn, dict(store or {}), Trace(None, 'enter %s (%s)' % (fn.name, fn.unit)), top=True)
         return res
